@@ -65,6 +65,7 @@ type Exec struct {
 	safety   bool
 	quiet    int // >0: obligations suppressed (inlined / pure evaluation)
 	termMode bool
+	zeroDepth int
 	noFacts  int // >0: inside a quantifier / definition body: no fresh constants or facts
 	depth    int
 	names    map[string]int
@@ -272,6 +273,13 @@ func isNarrow(t types.Type) bool {
 func (x *Exec) zero(t types.Type) Term {
 	so := x.W.SortOf(t)
 	var r Term
+	x.zeroDepth++
+	defer func() { x.zeroDepth-- }()
+	if x.zeroDepth > 6 {
+		r = x.opaqueZero(so, t)
+		r.GoT = t
+		return r
+	}
 	switch u := t.Underlying().(type) {
 	case *types.Basic:
 		switch {
@@ -288,7 +296,13 @@ func (x *Exec) zero(t types.Type) Term {
 		}
 	case *types.Slice:
 		es := x.W.SortOf(u.Elem())
-		r = x.W.MkSeq(so, ConstArray(ArraySort(SInt, es), x.zero(u.Elem())), IntLit(0), IntLit(0))
+		var ez Term
+		if _, basic := u.Elem().Underlying().(*types.Basic); basic {
+			ez = x.zero(u.Elem())
+		} else {
+			ez = x.opaqueZero(es, u.Elem())
+		}
+		r = x.W.MkSeq(so, ConstArray(ArraySort(SInt, es), ez), IntLit(0), IntLit(0))
 	case *types.Array:
 		r = ConstArray(so, x.zero(u.Elem()))
 	case *types.Struct:
@@ -709,6 +723,9 @@ func (x *Exec) assign(l ast.Expr, v Term, env *Env) {
 			v = ToReal(v)
 		}
 		if v.Sort != want {
+			v = x.coerce(v, want)
+		}
+		if v.Sort != want {
 			x.W.Note(fmt.Sprintf("sort mismatch on assignment to %s (%s vs %s): abstracted", l.Name, v.Sort, want))
 			v = x.fresh(l.Name, obj.Type())
 		}
@@ -777,6 +794,26 @@ func (x *Exec) assign(l ast.Expr, v Term, env *Env) {
 func (x *Exec) coerce(v Term, so Sort) Term {
 	if v.Sort == SInt && so == SReal {
 		return ToReal(v)
+	}
+	if v.Sort != so && v.Sort != "" {
+		// field-wise conversion between the full and the one-level-unrolled datatype of the same Go struct
+		dv, dw := x.W.datas[v.Sort], x.W.datas[so]
+		if dv != nil && dw != nil && len(dv.Fields) == len(dw.Fields) && len(dv.Fields) > 0 && dv.GoT != nil && dw.GoT != nil && dv.GoT.String() == dw.GoT.String() {
+			var vals []Term
+			for i, f := range dw.Fields {
+				fv, _ := x.W.Field(v, dv.Fields[i].Name)
+				if fv.Sort != f.Sort {
+					fv = x.coerce(fv, f.Sort)
+					if fv.Sort != f.Sort {
+						fv = x.opaqueFrom(fv, f.Sort)
+					}
+				}
+				vals = append(vals, fv)
+			}
+			r := x.W.Mk(so, vals...)
+			r.GoT = v.GoT
+			return r
+		}
 	}
 	return v
 }
